@@ -4,7 +4,7 @@ import FluentProofs.ParserLocalShiftEntry
 /-!
 # Serializer lemmas, part 18: where a message or a term ends in the source (C04, Junk)
 
-For a source without lone `\r`: the cursor at which `get_message` / `get_term` succeed is a position on which
+For every source (lone `\r` included): the cursor at which `get_message` / `get_term` succeed is a position on which
 `get_pattern` stops (`Stopper`: the end of input, a byte other than space / line end / `{` in column 0, or an indented
 `.` `[` `*` `}`), at which `get_attributes` finds no further attribute (`AttrStopAt`), and `skip_blank_block` does not
 move from it.
@@ -26,12 +26,7 @@ theorem Stopper.blockStop {s : Src} {q : Nat} (h : Stopper s q) : BlockStop s q 
     have : ¬ q < s.size := by omega
     simp [this]
   · have hsbi : skipBlankInline s q = q := skipBlankInline_stay s q (by rw [hb]; simpa using h32)
-    have heol : skipEol s q = none := by
-      unfold skipEol; rw [hb]
-      split
-      · rename_i hh; cases hh; exact absurd rfl h10
-      · rename_i hh; cases hh; exact absurd rfl h13
-      · rfl
+    have heol : skipEol s q = none := skipEol_lone s q b hb h10 h13
     rw [skipBlankBlockGo, hsbi, heol]
     have := get_lt hb
     simp [this]
@@ -48,7 +43,7 @@ theorem Stopper.blockStop {s : Src} {q : Nat} (h : Stopper s q) : BlockStop s q 
     simp [this]
 
 /-- the loop of `get_pattern` ends on a `Stopper` line -/
-theorem getPatternLoop_stopper {s : Src} (hcr : NoLoneCR s) (n : Nat) (st : PatState) (p : Nat) :
+theorem getPatternLoop_stopper {s : Src} (n : Nat) (st : PatState) (p : Nat) :
     ∀ st' q, getPatternLoop s n st p = .ok st' q → Stopper s q := by
   induction n generalizing st p with
   | zero => intro st' q hq; simp [getPatternLoop] at hq
@@ -86,10 +81,10 @@ theorem getPatternLoop_stopper {s : Src} (hcr : NoLoneCR s) (n : Nat) (st : PatS
                   | true => simp [he] at hpre
                 have h10 : b ≠ 10 := by
                   intro hb; subst hb; simp [isEol, hs1] at heol
-                have h13 : b ≠ 13 := by
+                have h13 : b = 13 → s[p + 1]? ≠ some 10 := by
                   intro hb; subst hb
-                  have := hcr p hs1
-                  simp [isEol, hs1, this] at heol
+                  intro h10'
+                  simp [isEol, hs1, h10'] at heol
                 have h32 : b ≠ 32 := by intro hb; subst hb; exact hstop hs1
                 have hb123 : b ≠ 123 := by
                   intro hb; subst hb
@@ -119,7 +114,7 @@ theorem getPatternLoop_stopper {s : Src} (hcr : NoLoneCR s) (n : Nat) (st : PatS
     · cases hq; exact Or.inl (by omega)
 
 /-- a successful `get_pattern` ends on a `Stopper` line -/
-theorem getPattern_stopper {s : Src} (hcr : NoLoneCR s) {f p : Nat} {v : Option (Pattern Span)} {q : Nat}
+theorem getPattern_stopper {s : Src} {f p : Nat} {v : Option (Pattern Span)} {q : Nat}
     (h : getPattern s f p = .ok v q) : Stopper s q := by
   cases f with
   | zero => simp [getPattern] at h
@@ -139,7 +134,7 @@ theorem getPattern_stopper {s : Src} (hcr : NoLoneCR s) {f p : Nat} {v : Option 
       intro role p2 hm
       split at hm
       · rename_i st q' hl
-        have := getPatternLoop_stopper hcr n _ p2 st q' hl
+        have := getPatternLoop_stopper n _ p2 st q' hl
         split at hm
         · split at hm
           · cases hm; exact this
@@ -152,13 +147,13 @@ theorem getPattern_stopper {s : Src} (hcr : NoLoneCR s) {f p : Nat} {v : Option 
     | some q0 => rw [hE] at h; exact key _ _ h
 
 /-- a successful `get_attribute` ends on a `Stopper` line -/
-theorem getAttribute_stopper {s : Src} (hcr : NoLoneCR s) {f p : Nat} {a : Attribute Span} {q : Nat}
+theorem getAttribute_stopper {s : Src} {f p : Nat} {a : Attribute Span} {q : Nat}
     (h : getAttribute s f p = .ok a q) : Stopper s q := by
   simp only [getAttribute] at h
   split at h
   · split at h
     · split at h
-      · rename_i hp; cases h; exact getPattern_stopper hcr hp
+      · rename_i hp; cases h; exact getPattern_stopper hp
       all_goals cases h
     all_goals cases h
   all_goals cases h
@@ -184,7 +179,7 @@ theorem attrStopAt_of {s : Src} {p : Nat}
       simp [getAttributesGo, takeByteIf, hdot']
 
 /-- `get_attributes` started on a `Stopper` line ends on a line at which a message or term ends -/
-theorem getAttributesGo_end {s : Src} (hcr : NoLoneCR s) (k : Nat) (acc : List (Attribute Span)) (p : Nat)
+theorem getAttributesGo_end {s : Src} (k : Nat) (acc : List (Attribute Span)) (p : Nat)
     {attrs : List (Attribute Span)} {q : Nat}
     (h : getAttributesGo s (exprFuel s) k acc p = .ok attrs q) (hp : Stopper s p) : MTStop s q := by
   induction k generalizing acc p with
@@ -195,7 +190,7 @@ theorem getAttributesGo_end {s : Src} (hcr : NoLoneCR s) (k : Nat) (acc : List (
       cases ha : getAttribute s (exprFuel s) (skipBlankInline s p + 1) with
       | ok a q' =>
         rw [ha] at h
-        exact ih _ _ h (getAttribute_stopper hcr ha)
+        exact ih _ _ h (getAttribute_stopper ha)
       | err e q' =>
         rw [ha] at h
         simp only [R.ok.injEq] at h
@@ -210,13 +205,13 @@ theorem getAttributesGo_end {s : Src} (hcr : NoLoneCR s) (k : Nat) (acc : List (
       exact ⟨hp, attrStopAt_of (Or.inl hdot')⟩
 
 /-- `get_attributes` behind a pattern -/
-theorem getAttributes_end {s : Src} (hcr : NoLoneCR s) {q3 : Nat} (hq3 : Stopper s q3)
+theorem getAttributes_end {s : Src} {q3 : Nat} (hq3 : Stopper s q3)
     {attrs : List (Attribute Span)} {q : Nat}
     (h : getAttributes s (exprFuel s) (skipBlankBlock s q3).1 = .ok attrs q) : MTStop s q := by
   rw [hq3.blockStop.sbb] at h
-  exact getAttributesGo_end hcr _ _ _ h hq3
+  exact getAttributesGo_end _ _ _ h hq3
 
-theorem getMessage_end {s : Src} (hcr : NoLoneCR s) {es p : Nat} {m : Message Span} {q : Nat}
+theorem getMessage_end {s : Src} {es p : Nat} {m : Message Span} {q : Nat}
     (h : getMessage s (exprFuel s) es p = .ok m q) : MTStop s q := by
   simp only [getMessage] at h
   split at h
@@ -227,13 +222,13 @@ theorem getMessage_end {s : Src} (hcr : NoLoneCR s) {es p : Nat} {m : Message Sp
         · rename_i hattr
           split at h
           · cases h
-          · cases h; exact getAttributes_end hcr (getPattern_stopper hcr hpat) hattr
+          · cases h; exact getAttributes_end (getPattern_stopper hpat) hattr
         all_goals cases h
       all_goals cases h
     all_goals cases h
   all_goals cases h
 
-theorem getTerm_end {s : Src} (hcr : NoLoneCR s) {es p : Nat} {t : Term Span} {q : Nat}
+theorem getTerm_end {s : Src} {es p : Nat} {t : Term Span} {q : Nat}
     (h : getTerm s (exprFuel s) es p = .ok t q) : MTStop s q := by
   simp only [getTerm] at h
   split at h
@@ -244,7 +239,7 @@ theorem getTerm_end {s : Src} (hcr : NoLoneCR s) {es p : Nat} {t : Term Span} {q
           split at h
           · rename_i hattr
             split at h
-            · cases h; exact getAttributes_end hcr (getPattern_stopper hcr hpat) hattr
+            · cases h; exact getAttributes_end (getPattern_stopper hpat) hattr
             · cases h
           all_goals cases h
         all_goals cases h
